@@ -85,11 +85,11 @@ PROPS = {
                            "C02_validate_payload", "C02_http_payload", "checkDigest_has_other",
                            "C02_length_every_policy", "parseBlock_length", "validateDigest_length", "checkDigest_get_other",
                            "C02_digests_every_policy", "validateDigest_adds", "parseBlock_digests", "parseBlock_onlyCL", "newDigest_default_empty",
-                           "C02_id_shape", "C02_id_injective", "hex_pair_inj", "hexHi_lower", "hexLo_lower", "stamp_version_digit", "stamp_variant_digit"],
+                           "C02_id_shape", "C02_id_injective", "C02_pool_slices", "hex_pair_inj", "hexHi_lower", "hexLo_lower", "stamp_version_digit", "stamp_variant_digit"],
         model_assumptions=["record ids: the build kind uses a fixed id function (the id is an input of the model); the DEFAULT generator is modelled in Model/RecordId.lean with the random source as input; that crypto/rand does not repeat is an assumption, that the generator hands no draw to two builders is judged on the implementation (kind uuidconc)",
                            "C02_digests_every_policy: when the caller declared neither digest field and add-missing-digest is on, under EVERY policy setting (spec checking off included) and every repair option the returned record's WARC-Block-Digest is name:encode(H alg (exactly the serialized block bytes)) and, for blocks with a payload on records that are neither revisits nor segmented, WARC-Payload-Digest is the same rendering of exactly the payload bytes, in the configured default algorithm and encoding",
                            "C02_length_every_policy: the Content-Length the builder adds itself equals the number of block bytes that get serialized under EVERY policy setting (spec checking off included), every repair option, every block kind and content (shorter than 2^63 - 2 bytes): through the HTTP-terminator repair (+2), the warc-fields block repair (adjusted in Build, fix 06457a1) and ValidateDigest",
-                           "C02_id_shape / C02_id_injective (Props/C02id.lean over Model/RecordId.lean, the default id generator uuid.New().URN() through SetId): for EVERY 16 bytes of the random source the stored WARC-Record-ID is <urn:uuid:8-4-4-4-12> in lower-case hex with version digit 4 and variant digit 8/9/a/b, and two ids are equal only if the stamped draws are equal (122 bits); tied by kind `uuid` (google/uuid random source replaced by the case bytes, default builder); that crypto/rand does not repeat and that no two builders are handed the same draw is judged on the implementation by kind `uuidconc` (concurrent + sequential default builders, no id twice)",
+                           "C02_id_shape / C02_id_injective (Props/C02id.lean over Model/RecordId.lean, the default id generator uuid.New().URN() through SetId): for EVERY 16 bytes of the random source the stored WARC-Record-ID is <urn:uuid:8-4-4-4-12> in lower-case hex with version digit 4 and variant digit 8/9/a/b, and two ids are equal only if the stamped draws are equal (122 bits); tied by kind `uuid` (google/uuid random source replaced by the case bytes, default builder; 256-byte cases fill the random pool gowarc enables exactly once and sixteen consecutive builders are compared with the sixteen slices, C02_pool_slices: the slices are 16 bytes each and partition the refill); that crypto/rand does not repeat and that no two builders are handed the same draw is judged on the implementation by kind `uuidconc` (concurrent + sequential default builders, no id twice)",
                            "C02_validate_payload: after ValidateDigest (spec warn/fail, default repairs) the WARC-Payload-Digest field is the rendering of the digest of exactly the payload bytes (HTTP: the bytes after the protocol header, C02_http_payload) or a declared value that decodes to it", "see level_note"],
         design_ref="DESIGN.md section 5, C02",
         level_text="Model of Build compared with the implementation on seeded builder inputs x 81 policy combinations x repair flags x algorithms x encodings; the oracle recomputes Content-Length and digests "
